@@ -1,0 +1,139 @@
+//go:build verif
+
+package main
+
+import (
+	"bufio"
+	"encoding/json"
+	"fmt"
+	"sort"
+	"strconv"
+	"strings"
+
+	"github.com/goccmack/gocc/internal/frontend/parser"
+	"github.com/goccmack/gocc/internal/frontend/token"
+)
+
+func init() {
+	commands["ftables"] = cmdFTables
+	commands["fparse"] = cmdFParse
+}
+
+type fState struct {
+	CanRecover bool              `json:"canRecover"`
+	Actions    map[string]string `json:"actions"` // token type -> "accept" | "shift N" | "reduce N"
+	Gotos      map[string]int    `json:"gotos"`
+}
+
+type fProd struct {
+	String     string `json:"string"`
+	Head       string `json:"head"`
+	NumSymbols int    `json:"numSymbols"`
+}
+
+type fDump struct {
+	Tokens []string `json:"tokens"` // index = token.Type (EOF = 0)
+	Prods  []fProd  `json:"prods"`
+	States []fState `json:"states"`
+}
+
+func canRecoverOf(r *parser.ActionRow) bool {
+	// the field is unexported; ActionRow.String() prints it first
+	return strings.HasPrefix(r.String(), "canRecover=true")
+}
+
+// cmdFTables prints the checked-in front-end tables.
+func cmdFTables(_ *bufio.Reader, out *bufio.Writer, _ []string) {
+	d := &fDump{}
+	for t := 0; t < token.FRONTENDTokens.Len(); t++ {
+		d.Tokens = append(d.Tokens, token.FRONTENDTokens.TokenString(token.Type(t)))
+	}
+	for _, p := range parser.ProductionsTable {
+		d.Prods = append(d.Prods, fProd{p.String, string(p.Head), p.NumSymbols})
+	}
+	for i, row := range parser.ActionTable {
+		st := fState{CanRecover: canRecoverOf(row), Actions: map[string]string{}, Gotos: map[string]int{}}
+		for t, a := range row.Actions {
+			var s string
+			switch x := a.(type) {
+			case parser.Accept:
+				s = "accept"
+			case parser.Shift:
+				s = fmt.Sprintf("shift %d", int(x))
+			case parser.Reduce:
+				s = fmt.Sprintf("reduce %d", int(x))
+			}
+			st.Actions[strconv.Itoa(int(t))] = s
+		}
+		if i < len(parser.GotoTable) {
+			for nt, s := range parser.GotoTable[i] {
+				st.Gotos[string(nt)] = int(s)
+			}
+		}
+		d.States = append(d.States, st)
+	}
+	enc := json.NewEncoder(out)
+	enc.SetEscapeHTML(false)
+	enc.Encode(d)
+}
+
+type typeScanner struct {
+	types []int
+	pos   int
+}
+
+func (s *typeScanner) Scan() (*token.Token, token.Position) {
+	t := &token.Token{Type: token.EOF}
+	if s.pos < len(s.types) {
+		t = &token.Token{Type: token.Type(s.types[s.pos]), Lit: []byte("x")}
+	}
+	p := token.Position{Offset: s.pos, Line: 1, Column: s.pos + 1}
+	s.pos++
+	return t, p
+}
+
+// cmdFParse runs the real front-end Parse loop on sequences of token types (one per
+// line) with the semantic actions replaced by loggers: prints the verdict, the
+// sequence of reductions and the number of Scan calls.
+func cmdFParse(in *bufio.Reader, out *bufio.Writer, _ []string) {
+	var log []int
+	prods := make(parser.ProdTab, len(parser.ProductionsTable))
+	for i, p := range parser.ProductionsTable {
+		i, p := i, p
+		prods[i] = p
+		prods[i].ReduceFunc = func(X []parser.Attrib) (parser.Attrib, error) {
+			log = append(log, i)
+			return nil, nil
+		}
+	}
+	sc := bufio.NewScanner(in)
+	sc.Buffer(make([]byte, 1<<20), 1<<26)
+	for sc.Scan() {
+		ts := &typeScanner{}
+		for _, w := range strings.Fields(sc.Text()) {
+			n, _ := strconv.Atoi(w)
+			ts.types = append(ts.types, n)
+		}
+		log = log[:0]
+		func() {
+			defer func() {
+				if r := recover(); r != nil {
+					fmt.Fprintf(out, "PANIC")
+				}
+			}()
+			p := parser.NewParser(parser.ActionTable, parser.GotoTable, prods, token.FRONTENDTokens)
+			_, err := p.Parse(ts)
+			if err == nil {
+				fmt.Fprintf(out, "ACC")
+			} else {
+				fmt.Fprintf(out, "REJ")
+			}
+		}()
+		strs := make([]string, len(log))
+		for i, x := range log {
+			strs[i] = strconv.Itoa(x)
+		}
+		fmt.Fprintf(out, " [%s] scans=%d\n", strings.Join(strs, " "), ts.pos)
+	}
+	_ = sort.Ints
+}
